@@ -22,8 +22,13 @@
   * `C14.ec2_key_wire_roundtrip`, `C14.okp_key_wire_roundtrip` — every key `NewKeyFromPublic /
     NewKeyFromPrivate` builds (`keyFromEC`, `keyFromEd`) marshals, the bytes unmarshal, kty / alg /
     curve are preserved, `ecCoords` of the result are the numbers put in, and x and y are stored
-    at exactly `curveSize` bytes (for non-zero coordinates); OKP x and d come back unchanged.  No
-    hypothesis beyond `keyFrom… = .ok k` (coordinate bounds follow from it).
+    at exactly `curveSize` bytes — for EVERY coordinate value, 0 included: they are `FillBytes` of
+    the coordinates, byte for byte what the in-memory key already holds (`C14.keyFromEC_fullwidth`
+    in Deep/Keys.lean); OKP x and d come back unchanged.  No hypothesis beyond `keyFrom… = .ok k`
+    (coordinate bounds follow from it).  `C14.ec2_key_wire_publicKey`: `PublicKey()` succeeds on
+    the key before and after the wire; `C14.ec2_zero_coordinate_roundtrip`: the P-256 key with
+    x = 0 is accepted, emits 32 zero octets for x, is re-parsed, and converts back without
+    `ErrEC2NoPub` (the defect of `big.Int.Bytes()` coordinates, repaired).
   * `C15.reencode_idempotent` — if `UnmarshalCBOR(b) = k` and every parameter VALUE of `k` is a
     `KVal`, then `MarshalCBOR(k) = b'` succeeds, `UnmarshalCBOR(b') = k2` succeeds, and
     `MarshalCBOR(k2) = b'` again: decode → encode → decode → encode is a fixpoint of canonical
@@ -1643,7 +1648,7 @@ theorem ecParams_disjoint (c : Int) (x y : Nat) (d : Option Nat) (i : Int) (hi :
 /-- every key `NewKeyEC2` returns lies in the flat data model -/
 theorem keyFromEC_flat (bits x y : Nat) (d : Option Nat) (k : Key)
     (hk : keyFromEC bits x y d = .ok k) : KeyFlat k ∧ KeySize k ∧ ParamsDisjoint k := by
-  obtain ⟨hc, hkeq, hv⟩ := keyFromEC_inv bits x y d k hk
+  obtain ⟨hc, hkeq, hv, _, _⟩ := keyFromEC_inv bits x y d k hk
   have hl := ecParams_lookups (curveOfBits bits) x y d
   have hpar : k.params = ecParams (curveOfBits bits) x y d := by rw [hkeq]
   have h2 : k.kty = 2 := by rw [hkeq]
@@ -1652,18 +1657,17 @@ theorem keyFromEC_flat (bits x y : Nat) (d : Option Nat) (k : Key)
   have hsz : curveSize k.crv > 0 := by
     rw [hcrv]; rcases hc with h | h | h <;> rw [h] <;> decide
   obtain ⟨_, _, _, _, _, hlen⟩ := C15.validate_ec2 k .none hv h2
-  obtain ⟨hlx, hly, hld⟩ := hlen hsz
-  rw [pbytes_of_lookup k _ _ hl.2.1] at hlx
-  rw [pbytes_of_lookup k _ _ hl.2.2.1] at hly
+  obtain ⟨_, _, hld⟩ := hlen hsz
   have h66 := curveSize_le k.crv
+  have h66' := curveSize_le (curveOfBits bits)
   have hcr : int64Range (curveOfBits bits) := by
     rcases hc with h | h | h <;> rw [h] <;> decide
   have hpm : KeyMap (ecParams (curveOfBits bits) x y d) := by
     have e1 : KeyLabel (lbl (-1)) ∧ KVal (.crv (curveOfBits bits)) := ⟨keyLabel_lbl _ (by decide), hcr⟩
-    have e2 : KeyLabel (lbl (-2)) ∧ KVal (.bytes (natBytes x)) :=
-      ⟨keyLabel_lbl _ (by decide), by simp only [KVal]; omega⟩
-    have e3 : KeyLabel (lbl (-3)) ∧ KVal (.bytes (natBytes y)) :=
-      ⟨keyLabel_lbl _ (by decide), by simp only [KVal]; omega⟩
+    have e2 : KeyLabel (lbl (-2)) ∧ KVal (.bytes (fillBytes (curveSize (curveOfBits bits)) x)) :=
+      ⟨keyLabel_lbl _ (by decide), by simp only [KVal, fillBytes_length]; omega⟩
+    have e3 : KeyLabel (lbl (-3)) ∧ KVal (.bytes (fillBytes (curveSize (curveOfBits bits)) y)) :=
+      ⟨keyLabel_lbl _ (by decide), by simp only [KVal, fillBytes_length]; omega⟩
     intro e he
     cases d with
     | none =>
@@ -1705,64 +1709,99 @@ theorem marshal_of_marshalMap {k : Key} (hk : KeyFlat k) {m : GoMap} (hm : k.mar
 
 /-- 2. an EC2 key built from a Go key (`NewKeyEC2` via `NewKeyFromPublic/Private`) survives
     `MarshalCBOR` / `UnmarshalCBOR`: same kty, alg and curve, the coordinates read back are the
-    numbers put in, and x and y are stored at exactly the curve's byte size. -/
+    numbers put in, and x and y are stored at exactly the curve's byte size — for EVERY key the
+    constructor accepts, a zero coordinate included (no `0 < x`, `0 < y` hypotheses): the re-parsed
+    x and y are `FillBytes` of the coordinates, byte for byte those of the in-memory key. -/
 theorem ec2_key_wire_roundtrip (bits x y : Nat) (d : Option Nat) (k : Key)
     (hk : keyFromEC bits x y d = .ok k) :
     ∃ b k', k.marshal = .ok b ∧ Key.unmarshal b = .ok k' ∧
       k'.kty = 2 ∧ k'.alg = k.alg ∧ k'.id = none ∧ k'.ops = none ∧ k'.baseIV = none ∧
       k'.crv = curveOfBits bits ∧
       k'.ecCoords = (x, y, d.getD 0) ∧
-      k'.pbytes (-2) = leftPad (curveSize (curveOfBits bits)) (natBytes x) ∧
-      k'.pbytes (-3) = leftPad (curveSize (curveOfBits bits)) (natBytes y) ∧
+      k'.pbytes (-2) = fillBytes (curveSize (curveOfBits bits)) x ∧
+      k'.pbytes (-3) = fillBytes (curveSize (curveOfBits bits)) y ∧
       k'.pbytes (-4) = (d.map natBytes).getD [] ∧
-      (0 < x → (k'.pbytes (-2)).length = curveSize (curveOfBits bits)) ∧
-      (0 < y → (k'.pbytes (-3)).length = curveSize (curveOfBits bits)) ∧
-      k'.validate .none = none := by
+      (k'.pbytes (-2)).length = curveSize (curveOfBits bits) ∧
+      (k'.pbytes (-3)).length = curveSize (curveOfBits bits) ∧
+      k'.pbytes (-2) = k.pbytes (-2) ∧ k'.pbytes (-3) = k.pbytes (-3) ∧
+      k'.validate .none = none ∧
+      (∀ op, k'.validate op = k.validate op) := by
   obtain ⟨hflat, hsize, hdis⟩ := keyFromEC_flat bits x y d k hk
-  obtain ⟨hc, hkeq, hv⟩ := keyFromEC_inv bits x y d k hk
-  have hl := ecParams_lookups (curveOfBits bits) x y d
+  obtain ⟨hc, hkeq, hv, hxlt, hylt⟩ := keyFromEC_inv bits x y d k hk
+  obtain ⟨hcrv, hpx, hpy, hpd⟩ := keyFromEC_pbytes bits x y d k hk
   have hpar : k.params = ecParams (curveOfBits bits) x y d := by rw [hkeq]
   have h2 : k.kty = 2 := by rw [hkeq]
-  rw [← hpar] at hl
-  have hcrv := crv_of_lookup k _ hl.1
-  have hpx := pbytes_of_lookup k _ _ hl.2.1
-  have hpy := pbytes_of_lookup k _ _ hl.2.2.1
-  have hsz : curveSize k.crv > 0 := by
-    rw [hcrv]; rcases hc with h | h | h <;> rw [h] <;> decide
-  obtain ⟨_, _, _, _, _, hlen⟩ := C15.validate_ec2 k .none hv h2
-  obtain ⟨hlx, hly, _⟩ := hlen hsz
-  rw [hpx] at hlx
-  rw [hpy] at hly
-  have hxlt := lt_pow_of_natBytes_length_le _ _ hlx
-  have hylt := lt_pow_of_natBytes_length_le _ _ hly
   obtain ⟨m, hm⟩ := keyFromEC_marshal_some bits x y d k hk
   have hb := marshal_of_marshalMap hflat hm
   obtain ⟨k', hu, e1, e2, e3, e4, e5, _, _, hpb, hcr, hv', _, _⟩ :=
     key_marshal_unmarshal k hflat hsize hdis hv _ hb
-  have q2 : k'.pbytes (-2) = leftPad (curveSize (curveOfBits bits)) (natBytes x) := by
-    rw [hpb (-2) (by decide) (by decide), wirePbytes, if_pos ⟨h2, Or.inl rfl⟩, hpx, hcrv]
-  have q3 : k'.pbytes (-3) = leftPad (curveSize (curveOfBits bits)) (natBytes y) := by
-    rw [hpb (-3) (by decide) (by decide), wirePbytes, if_pos ⟨h2, Or.inr rfl⟩, hpy, hcrv]
+  have q2 : k'.pbytes (-2) = fillBytes (curveSize (curveOfBits bits)) x := by
+    rw [hpb (-2) (by decide) (by decide), wirePbytes, if_pos ⟨h2, Or.inl rfl⟩, hpx, hcrv,
+      leftPad_fillBytes]
+  have q3 : k'.pbytes (-3) = fillBytes (curveSize (curveOfBits bits)) y := by
+    rw [hpb (-3) (by decide) (by decide), wirePbytes, if_pos ⟨h2, Or.inr rfl⟩, hpy, hcrv,
+      leftPad_fillBytes]
   have q4 : k'.pbytes (-4) = (d.map natBytes).getD [] := by
     rw [hpb (-4) (by decide) (by decide), wirePbytes, if_neg (fun h => by have := h.2; omega)]
     cases d with
-    | some dv => exact pbytes_of_lookup k _ _ (hl.2.2.2 dv rfl)
+    | some dv => exact hpd dv rfl
     | none =>
       rw [pbytes_eq, hpar]
       simp [ecParams, lookup_cons, keyEq_lbl_lbl, lookup_nil, optBytes]
   refine ⟨_, k', hb, hu, by rw [e1, h2], e3, by rw [e2, hkeq], by rw [e4, hkeq], by rw [e5, hkeq],
-    by rw [hcr (Or.inr h2), hcrv], ?_, q2, q3, q4, ?_, ?_, hv'⟩
+    by rw [hcr (Or.inr h2), hcrv], ?_, q2, q3, q4, by rw [q2, fillBytes_length],
+    by rw [q3, fillBytes_length], by rw [q2, hpx], by rw [q3, hpy], hv', ?_⟩
   · unfold Key.ecCoords
-    rw [q2, q3, q4, os2ip_leftPad, os2ip_leftPad, os2ip_natBytes, os2ip_natBytes]
+    rw [q2, q3, q4, os2ip_fillBytes _ _ hxlt, os2ip_fillBytes _ _ hylt]
     cases d with
     | none => rfl
     | some dv => simp only [Option.map_some, Option.getD_some, os2ip_natBytes]
-  · intro hx
-    rw [q2, ← hcrv]
-    exact leftPad_natBytes_length _ _ hx hxlt
-  · intro hy
-    rw [q3, ← hcrv]
-    exact leftPad_natBytes_length _ _ hy hylt
+  · intro op
+    exact validate_transfer k k' op e1 e3 (fun _ => hcr (Or.inr h2))
+      (fun n h1 h0 => hpb n (by unfold int64Range; omega) h0)
+
+/-- 2a. converting back: `PublicKey()` succeeds on every EC2 key built from a Go key, both on the
+    in-memory key and on the key re-parsed from its serialisation — whatever the coordinates.  In
+    particular neither fails with `ErrEC2NoPub`. -/
+theorem ec2_key_wire_publicKey (bits x y : Nat) (d : Option Nat) (k : Key)
+    (hk : keyFromEC bits x y d = .ok k) (b : Bytes) (hb : k.marshal = .ok b) (k' : Key)
+    (hu : Key.unmarshal b = .ok k') :
+    k.publicKey = none ∧ k'.validate .verify = none ∧ k'.publicKey = none := by
+  obtain ⟨hc, _, _, _, _⟩ := keyFromEC_inv bits x y d k hk
+  obtain ⟨hver, hpub⟩ := keyFromEC_publicKey bits x y d k hk
+  obtain ⟨b0, k0, hb0, hu0, h2, _, _, _, _, hcrv, _, _, _, _, _, _, _, _, _, hval⟩ :=
+    ec2_key_wire_roundtrip bits x y d k hk
+  rw [hb] at hb0
+  cases hb0
+  rw [hu] at hu0
+  cases hu0
+  have hv' : k'.validate .verify = none := by rw [hval, hver]
+  exact ⟨hpub, hv', publicKey_of_ec2 k' h2 (by rw [hcrv]; exact hc) hv'⟩
+
+/-- 2b. NON-VACUITY, and the repaired defect end to end: the P-256 key with x = 0 (y = 1; the
+    model's `validate`, like go-cose's, does not check the curve equation).  The constructor
+    accepts it and holds x as 32 zero octets; `MarshalCBOR` succeeds; `UnmarshalCBOR` accepts the
+    bytes; the re-parsed x is again 32 zero octets and y has 32 octets; the coordinates read back
+    are (0, 1); and `PublicKey()` returns no error — before the repair x was the EMPTY string
+    (`big.Int.Bytes()` of 0) and the conversion back failed with `ErrEC2NoPub`. -/
+theorem ec2_zero_coordinate_roundtrip :
+    ∃ k b k', keyFromEC 256 0 1 none = .ok k ∧
+      k.pbytes (-2) = List.replicate 32 0 ∧
+      k.marshal = .ok b ∧ Key.unmarshal b = .ok k' ∧
+      k'.pbytes (-2) = List.replicate 32 0 ∧ (k'.pbytes (-3)).length = 32 ∧
+      k'.ecCoords = (0, 1, 0) ∧
+      k.publicKey = none ∧
+      k'.validate .verify = none ∧ k'.publicKey = none ∧ k'.publicKey ≠ some .ec2NoPub := by
+  have hk := keyFromEC_ok 256 0 1 none (by decide) (by decide) (by decide) (by intro dv h; cases h)
+  obtain ⟨b, k', hb, hu, _, _, _, _, _, _, hco, q2, _, _, _, l3, q2k, _, _, _⟩ :=
+    ec2_key_wire_roundtrip 256 0 1 none _ hk
+  obtain ⟨p0, pv, p1⟩ := ec2_key_wire_publicKey 256 0 1 none _ hk b hb k' hu
+  have e32 : curveSize (curveOfBits 256) = 32 := by decide
+  rw [e32] at q2 l3
+  rw [fillBytes_zero] at q2
+  refine ⟨_, b, k', hk, ?_, hb, hu, q2, l3, hco, p0, pv, p1, ?_⟩
+  · rw [← q2k, q2]
+  · rw [p1]; intro h; cases h
 
 /-- the parameter list `NewKeyOKP` builds for Ed25519 -/
 def edParams (x : Bytes) (d : Option Bytes) : GoMap :=
